@@ -3,6 +3,7 @@ import GorumsV.Generated.Exprs
 import GorumsV.Generated.Skel
 import GorumsV.Model.Skeletons
 import GorumsV.Lemmas.GoETac
+import GorumsV.Props.WatchConcP
 /-!
   Tie for C11: the decisions of correctable.go, regenerated from the tree on every
   run, are the ones the model `GorumsV.Correctable` was written with.
@@ -43,6 +44,14 @@ theorem watchCmp_good (l cur : Int) (done : Bool) :
     watcher's test and its registration -/
 theorem atomic_good : Generated.corr_watchAtomic = true ∧ Generated.corr_setAtomic = true := by decide
 
+/-- hence, for every interleaving of Watch calls and publications, no watcher is ever stranded (open although its level has
+    been published or the call is completed): the concurrent model `WatchConc` at the tree's atomicity -/
+theorem tree_never_stranded (s : WatchConc.St)
+    (h : WatchConc.Reachable (Generated.corr_watchAtomic && Generated.corr_setAtomic) s) : WatchConc.stranded s = false := by
+  have ha : (Generated.corr_watchAtomic && Generated.corr_setAtomic) = true := by decide
+  rw [ha] at h
+  exact WatchConcP.atomic_never_stranded s h
+
 def envS (wl l : Int) : Env := envOf [("c.watchers[i]", .ref 1), ("c.watchers[i].level", .int wl), ("level", .int l)]
 
 /-- `set` releases exactly the (still registered) watchers at or below the published level -/
@@ -74,6 +83,11 @@ open GorumsV.Tie.C11 GorumsV.C11
 #print axioms ctxCause_good
 #print axioms watchCmp_good
 #print axioms atomic_good
+#print axioms tree_never_stranded
+#print axioms GorumsV.WatchConcP.atomic_never_stranded
+#print axioms GorumsV.WatchConcP.atomic_open_means_waiting
+#print axioms GorumsV.WatchConcP.twostep_strands
+#print axioms GorumsV.WatchConcP.twostep_strands_for_good
 #print axioms setCmp_good
 #print axioms replyCase_good
 #print axioms skel_Get_good
